@@ -173,9 +173,10 @@ func tryRegister(t registrar, d *grpc.ServiceDesc, h interface{}) (panicked bool
 }
 
 func checkC15(e *core.Env) {
+	curEnv = e
 	e.SetRule("random histories (<=40 ops) of register (fresh / duplicate name with same or different handler and descriptor / ill-typed handler) , query (registered / unknown / near-miss names), ForEach and GetServiceInfo over random service descriptors, executed on HandlerMap, inprocgrpc.Channel and httpgrpc.Server, mirrored into a sequential model and a real grpc.Server; distinct = distinct op-kind sequences")
 	e.Assume("registries are used from one goroutine (documented as not concurrency-safe)")
-	n := e.N(1200, 12000)
+	n := e.N(4000, 60000)
 	e.Cases("history", n, func(i int, r *rand.Rand) {
 		target := i % 3
 		var reg registrar
